@@ -45,6 +45,7 @@ type Exec struct {
 	abstracted  map[string]bool // callees abstracted (havoc)
 	inlined     map[string]bool
 	usedContr   map[string]bool
+	assumedTerm map[string]bool // callees under contract assumed to terminate (no `terminates` of their own)
 	budget      int
 	inSpec      int
 	usedInv     map[string]bool
@@ -63,23 +64,24 @@ type deferred struct {
 }
 
 type Frame struct {
-	fn        *ssa.Function
-	regs      map[ssa.Value]Value
-	params    map[*ssa.Parameter]Value
-	freeVars  map[*ssa.FreeVar]Value
-	defers    []deferred
-	top       bool
-	contract  *FuncContract
-	entry     *State
-	args      []Value
-	callOrd   map[string]int
-	depth     int
-	parent    *Frame
-	allocSeq  []*ssa.Alloc
-	curLoop   *loopInfo
-	results   []Value // at ensures time
-	loopHeads map[*loopInfo]*State
-	loopPre   map[*loopInfo]*State
+	fn          *ssa.Function
+	regs        map[ssa.Value]Value
+	params      map[*ssa.Parameter]Value
+	freeVars    map[*ssa.FreeVar]Value
+	defers      []deferred
+	top         bool
+	contract    *FuncContract
+	entry       *State
+	args        []Value
+	callOrd     map[string]int
+	depth       int
+	parent      *Frame
+	allocSeq    []*ssa.Alloc
+	curLoop     *loopInfo
+	results     []Value // at ensures time
+	loopHeads   map[*loopInfo]*State
+	loopPre     map[*loopInfo]*State
+	loopMeasure map[*loopInfo]*Term
 }
 
 func (ex *Exec) warn(format string, a ...interface{}) {
@@ -273,13 +275,61 @@ func (ex *Exec) writeLoc(st *State, loc *Loc, val Value) {
 
 // ownWriteCheck: stores into the keys a contract reserves (ownwrites) must hit objects this activation allocated.
 func (ex *Exec) ownWriteCheck(fr *Frame, st *State, loc *Loc, fname string, pos token.Pos) {
-	if ex.topC == nil || len(ex.topC.OwnWrites) == 0 || ex.inSpec > 0 || loc.Kind == LLocal || loc.Kind == LGlobal {
+	if ex.topC == nil {
+		return
+	}
+	ex.atomicOnlyCheck(fr, st, loc, pos, "store")
+	ex.ownAccessCheck(fr, st, loc, fname, pos, ex.topC.OwnWrites, "ownwrite", "store into")
+}
+
+// ownReadCheck: plain loads from the keys a contract reserves (ownreads) must read objects this activation allocated
+// (goroutine bodies: what another goroutine may write is read only through channels, atomics or under a lock).
+func (ex *Exec) ownReadCheck(fr *Frame, st *State, loc *Loc, fname string, pos token.Pos) {
+	if ex.topC == nil || loc == nil {
+		return
+	}
+	ex.atomicOnlyCheck(fr, st, loc, pos, "load")
+	ex.ownAccessCheck(fr, st, loc, fname, pos, ex.topC.OwnReads, "ownread", "load from")
+}
+
+// atomicOnlyCheck: a plain load or store must not touch the cell of a captured variable the contract reserves for
+// sync/atomic access.
+func (ex *Exec) atomicOnlyCheck(fr *Frame, st *State, loc *Loc, pos token.Pos, verb string) {
+	if ex.topC == nil || len(ex.topC.AtomicOnly) == 0 || ex.inSpec > 0 || loc == nil || loc.Kind != LRef || ex.topFn == nil {
+		return
+	}
+	var top *Frame
+	for f := fr; f != nil; f = f.parent {
+		top = f
+	}
+	for _, name := range ex.topC.AtomicOnly {
+		var fv *ssa.FreeVar
+		for _, v := range ex.topFn.FreeVars {
+			if v.Name() == name {
+				fv = v
+			}
+		}
+		if fv == nil {
+			ex.eng.bindingErrors = append(ex.eng.bindingErrors, fmt.Sprintf("%s: atomiconly %s: not a captured variable", shortName(ex.topFn.String()), name))
+			continue
+		}
+		keys := refKeys(derefType(fv.Type()))
+		if len(keys) == 0 || loc.Off >= len(loc.Keys) || loc.Keys[loc.Off] != keys[0] {
+			continue
+		}
+		cell := ex.val(top, st, fv).one()
+		ex.prove(shortName(ex.topFn.String()), st, "atomiconly", name+":"+ex.srcLabel(pos), Not(Eq(loc.Ref, cell)), "plain "+verb+" of "+name+", a variable shared between goroutines that may only be accessed through sync/atomic", pos)
+	}
+}
+
+func (ex *Exec) ownAccessCheck(fr *Frame, st *State, loc *Loc, fname string, pos token.Pos, prefixes []string, kind, verb string) {
+	if len(prefixes) == 0 || ex.inSpec > 0 || loc.Kind == LLocal || loc.Kind == LGlobal {
 		return
 	}
 	hit := false
 	n := len(layout(loc.T))
 	for j := 0; j < n && !hit; j++ {
-		for _, p := range ex.topC.OwnWrites {
+		for _, p := range prefixes {
 			if strings.HasPrefix(loc.Keys[loc.Off+j], p) {
 				hit = true
 			}
@@ -297,7 +347,7 @@ func (ex *Exec) ownWriteCheck(fr *Frame, st *State, loc *Loc, fname string, pos 
 	if entry == nil {
 		return
 	}
-	ex.prove(shortName(ex.topFn.String()), st, "ownwrite", ex.srcLabel(pos), Gt(loc.Ref, entry), "store into shared storage ("+loc.Keys[loc.Off]+"): the target must be an object allocated by this statement", pos)
+	ex.prove(shortName(ex.topFn.String()), st, kind, ex.srcLabel(pos), Gt(loc.Ref, entry), verb+" shared storage ("+loc.Keys[loc.Off]+"): the target must be an object allocated by this activation", pos)
 }
 
 func (ex *Exec) allocRef(st *State) *Term {
@@ -665,6 +715,7 @@ func (ex *Exec) loopHead(fr *Frame, st *State, li *loopInfo, fname string) {
 		for _, inv := range spec.Invariants {
 			g, err := ex.compileBool(fr, st, fr.entry, inv.E, false)
 			if err != nil {
+				ex.bindingError(fname, "inv-assume", fmt.Sprintf("L%d", li.ordinal), inv, err)
 				continue
 			}
 			ex.assume(st.pc, g)
@@ -672,6 +723,21 @@ func (ex *Exec) loopHead(fr *Frame, st *State, li *loopInfo, fname string) {
 	}
 	if spec != nil && spec.HasMod {
 		fr.loopHeads[li] = st.clone()
+	}
+	if ex.topC != nil && ex.topC.Terminates && ex.inSpec == 0 && (spec == nil || spec.Decreases == nil) && li.rangeIx == nil && !isMapRangeLoop(li) {
+		ex.prove(fname, st, "decreases", fmt.Sprintf("L%d:missing", li.ordinal), False, "loop in a function that must terminate has no decreases clause (only range loops over slices and maps are exempt)", li.head.Instrs[0].Pos())
+	}
+	if spec != nil && spec.Decreases != nil {
+		// the measure at the head of an arbitrary iteration: every back edge must arrive with a smaller one
+		m, err := ex.compileInt(fr, st, fr.entry, spec.Decreases.E)
+		if err != nil {
+			ex.bindingError(fname, "decreases", fmt.Sprintf("L%d", li.ordinal), *spec.Decreases, err)
+		} else {
+			if fr.loopMeasure == nil {
+				fr.loopMeasure = map[*loopInfo]*Term{}
+			}
+			fr.loopMeasure[li] = m
+		}
 	}
 	fr.curLoop = saved
 }
@@ -691,6 +757,15 @@ func (ex *Exec) loopBack(fr *Frame, st *State, li *loopInfo, fname string) {
 			continue
 		}
 		ex.prove(fname, st, "inv-pres", label, g, inv.Text, li.head.Instrs[0].Pos())
+	}
+	if spec.Decreases != nil && fr.loopMeasure[li] != nil {
+		m, err := ex.compileInt(fr, st, fr.entry, spec.Decreases.E)
+		if err != nil {
+			ex.bindingError(fname, "decreases", fmt.Sprintf("L%d", li.ordinal), *spec.Decreases, err)
+		} else {
+			m0 := fr.loopMeasure[li]
+			ex.prove(fname, st, "decreases", fmt.Sprintf("L%d", li.ordinal), And(Lt(m, m0), Ge(m0, IntLit(0))), "termination: the measure "+spec.Decreases.Text+" is non-negative and strictly smaller after every iteration", li.head.Instrs[0].Pos())
+		}
 	}
 	if spec.HasMod && fr.loopHeads[li] != nil {
 		// the iteration changed nothing outside the declared loop frame (targets evaluated before the loop)
@@ -803,6 +878,13 @@ func (ex *Exec) val(fr *Frame, st *State, v ssa.Value) Value {
 		// free variable of a closure verified on its own: an arbitrary (allocated) cell
 		fv := freshValue("freevar."+x.Name(), x.Type())
 		ex.assume(True, And(Gt(fv.C[0], IntLit(0)), Le(fv.C[0], fr.entry.wm)))
+		// the language: every captured variable has a cell of its own, so two free variables of one closure that
+		// hold cells of the same type are different cells
+		for y, other := range fr.freeVars {
+			if types.Identical(y.Type(), x.Type()) && len(other.C) == 1 {
+				ex.assume(True, Not(Eq(fv.C[0], other.C[0])))
+			}
+		}
 		fr.freeVars[x] = fv
 		return fv
 	case *ssa.Parameter:
@@ -1147,6 +1229,7 @@ func (ex *Exec) mapUpdate(fr *Frame, st *State, i *ssa.MapUpdate, fname string) 
 		ex.prove(fname, st, "mapwrite", ex.srcLabel(i.Pos()), Not(Eq(m, IntLit(0))), "assignment to entry in nil map", i.Pos())
 	}
 	d, l, vs := mapKeys(mt)
+	ex.ownWriteCheck(fr, st, &Loc{Kind: LRef, Ref: m, Keys: []string{d}, T: types.Typ[types.Bool]}, fname, i.Pos())
 	ds := ArraySort(IntSort, ArraySort(ks, BoolSort))
 	dom := st.heap.Get(d, ds)
 	present := Select(Select(dom, m), k)
@@ -1320,6 +1403,7 @@ func (ex *Exec) unop(fr *Frame, st *State, i *ssa.UnOp, fname string) {
 	case token.MUL: // load
 		loc := ex.derefLoc(st, x)
 		ex.nilCheck(fr, st, x, fname, i.Pos())
+		ex.ownReadCheck(fr, st, loc, fname, i.Pos())
 		v := ex.readLoc(st, loc)
 		v.T = i.Type()
 		ex.assumeTyped(st, v)
@@ -1530,7 +1614,13 @@ func (ex *Exec) convert(fr *Frame, st *State, i *ssa.Convert, fname string) {
 		for j, k := range elemKeys(et) {
 			c := layout(et)[j]
 			s := ArraySort(IntSort, ArraySort(IntSort, c.Sort))
-			st.heap.m[k] = Store(st.heap.Get(k, s), base, Fresh("conv.elems", ArraySort(IntSort, c.Sort)))
+			ea := Fresh("conv.elems", ArraySort(IntSort, c.Sort))
+			st.heap.m[k] = Store(st.heap.Get(k, s), base, ea)
+			if c.Sort == IntSort && (typeStr(et) == "rune" || typeStr(et) == "int32") {
+				// the language: converting a string to []rune yields Unicode code points (invalid UTF-8 becomes U+FFFD)
+				q := BoundVar("q", IntSort)
+				ex.assume(st.pc, Forall([]*Term{q}, And(Ge(Select(ea, q), IntLit(0)), Le(Select(ea, q), IntLit(1114111))), [][]*Term{{Select(ea, q)}}))
+			}
 		}
 	default:
 		if len(layout(from)) == len(layout(to)) {
@@ -1597,4 +1687,15 @@ func (ex *Exec) runDefers(fr *Frame, st *State, fname string) {
 		m := mergeStates([]*State{run, skip})
 		*st = *m
 	}
+}
+
+// isMapRangeLoop: the loop head advances a map/string iterator (ssa.Next): finitely many iterations by construction.
+func isMapRangeLoop(li *loopInfo) bool {
+	for _, in := range li.head.Instrs {
+		if n, ok := in.(*ssa.Next); ok {
+			_ = n
+			return true
+		}
+	}
+	return false
 }
